@@ -178,6 +178,11 @@ class TableCmp(ModelCmp):
         raise NotImplementedError
 
 
+def enc_cmps(cmps):
+    """`ModelRegistry(*cmps)`: an empty list means the library defaults"""
+    return [enc_cmp(c) for c in (cmps or ModelRegistry.DEFAULT_MODELS_CMP)]
+
+
 def enc_cmp(c):
     if isinstance(c, TableCmp):
         return ["table", sorted(list(e) for e in c.edges)]
@@ -328,7 +333,7 @@ def stage_pipeline(batch, inputs, registry, cmps, dict_fields=(), dict_regex=(),
     if "ok" in ans and ans["ok"].pop("cost") > 80:
         batch.skipped_cost += 1
         return ans
-    req = {"op": "pipeline", "cfg": cfg, "orc": orc, "cmps": [enc_cmp(c) for c in cmps],
+    req = {"op": "pipeline", "cfg": cfg, "orc": orc, "cmps": enc_cmps(cmps),
            "in": [[n, [conv.enc_json(s) for s in ss]] for n, ss in inputs]}
     batch.add(req, ans, {"inputs": inputs, "project": "pipeline", "parts": parts})
     return ans
@@ -477,7 +482,7 @@ def stage_render(batch, inputs, registry, cmps, jobs, dict_fields=(), dict_regex
     lab, nonprint = rec.tables()
     orc.update(lab)
     orc["nonprint"] = sorted(set(orc["nonprint"]) | set(nonprint))
-    req = {"op": "pipeline", "cfg": cfg, "orc": orc, "cmps": [enc_cmp(c) for c in cmps],
+    req = {"op": "pipeline", "cfg": cfg, "orc": orc, "cmps": enc_cmps(cmps),
            "in": [[n, [conv.enc_json(s) for s in ss]] for n, ss in inputs],
            "render": jobs, "consts": render_consts(registry)}
     batch.add(req, {"ok": outs}, {"inputs": inputs, "jobs": jobs, "project": "render"})
